@@ -33,6 +33,19 @@ impl Formatter for PrevLineBreakRemover {
     fn format(&self, content: &str, byte_pos: usize) -> (usize, usize) {
         let bytes = content.as_bytes();
 
+        // Blanks in front of the position followed by text on the same line are the
+        // indentation of a line that survives: keep them (and the blank line above).
+        let indented = byte_pos > 0 && matches!(bytes.get(byte_pos - 1), Some(b' ') | Some(b'\t'));
+        let text_follows = bytes
+            .get(byte_pos..)
+            .unwrap_or_default()
+            .iter()
+            .find(|b| **b != b' ' && **b != b'\t')
+            .map_or(false, |b| *b != b'\n');
+        if indented && text_follows {
+            return (byte_pos, byte_pos);
+        }
+
         let line_break_pos = find_prev_line_break_pos(content, bytes, byte_pos, true)
             .and_then(|pos| find_prev_line_break_pos(content, bytes, pos, true));
 
